@@ -189,17 +189,7 @@ Lemma ktr_window_show : forall fuel w, ktr (window_show fuel w).
 Proof. intros. unfold window_show. ktr_auto. Qed.
 Lemma ktr_window_hide : forall fuel w, ktr (window_hide fuel w).
 Proof. intros. unfold window_hide. ktr_auto. Qed.
-Lemma ktr_focus_lost : forall fuel w, ktr (focus_lost fuel w).
-Proof. ktr_fix fuel. Qed.
-#[export] Hint Resolve ktr_window_new ktr_window_show ktr_window_hide ktr_focus_lost : ktr.
-Lemma ktr_focus_gained : forall fuel w ch, ktr (focus_gained fuel w ch).
-Proof. ktr_fix fuel. Qed.
-#[export] Hint Resolve ktr_focus_gained : ktr.
-Lemma ktr_do_expose_both : forall fuel, (forall w, ktr (do_expose fuel w)) /\ (forall k, ktr (do_expose_kids fuel k)).
-Proof. induction fuel as [|f [IH1 IH2]]; split; intros; cbn; ktr_auto. Qed.
-Lemma ktr_do_expose : forall fuel w, ktr (do_expose fuel w).
-Proof. intros. apply ktr_do_expose_both. Qed.
-#[export] Hint Resolve ktr_do_expose : ktr.
+#[export] Hint Resolve ktr_window_new ktr_window_show ktr_window_hide : ktr.
 Lemma ktr_cell_visible_kids : forall fuel k prev, ktr (cell_visible_kids fuel k prev).
 Proof. ktr_fix fuel. Qed.
 #[export] Hint Resolve ktr_cell_visible_kids : ktr.
@@ -213,9 +203,11 @@ Proof. intros. unfold do_restore. ktr_auto. Qed.
 Lemma ktr_apply_queue : forall fuel q, ktr (apply_queue fuel q).
 Proof. ktr_fix fuel. Qed.
 #[export] Hint Resolve ktr_do_restore ktr_apply_queue : ktr.
-Lemma ktr_window_flush : forall fuel w, ktr (window_flush fuel w).
-Proof. intros. unfold window_flush. ktr_auto. Qed.
-#[export] Hint Resolve ktr_window_flush : ktr.
+Lemma ktr_flush_begin : forall fuel w, ktr (flush_begin fuel w).
+Proof. intros. unfold flush_begin. ktr_auto. Qed.
+Lemma ktr_flush_end : forall fuel w, ktr (flush_end fuel w).
+Proof. intros. unfold flush_end. ktr_auto. Qed.
+#[export] Hint Resolve ktr_flush_begin ktr_flush_end : ktr.
 Lemma ktr_in_tree_both : forall fuel, (forall t w, ktr (in_tree fuel t w)) /\ (forall k w, ktr (in_tree_kids fuel k w)).
 Proof. induction fuel as [|f [IH1 IH2]]; split; intros; cbn; ktr_auto. Qed.
 Lemma ktr_in_tree : forall fuel t w, ktr (in_tree fuel t w).
@@ -232,6 +224,17 @@ Lemma ktr_is_child : forall fuel w c, ktr (is_child fuel w c).
 Proof. intros. unfold is_child. ktr_auto. Qed.
 Lemma ktr_window_ref : forall w, ktr (window_ref w).
 Proof. intros. unfold window_ref. ktr_auto. Qed.
+Lemma ktr_sib_walk : forall fuel k a, ktr (sib_walk fuel k a).
+Proof. ktr_fix fuel. Qed.
+#[export] Hint Resolve ktr_sib_walk : ktr.
+Lemma ktr_any_visible : forall fuel k, ktr (any_visible fuel k).
+Proof. ktr_fix fuel. Qed.
+Lemma ktr_scroll_up : forall fuel a c, ktr (scroll_up fuel a c).
+Proof. ktr_fix fuel. Qed.
+#[export] Hint Resolve ktr_scroll_up ktr_any_visible : ktr.
+Lemma ktr_scrollrect : forall fuel w, ktr (scrollrect fuel w).
+Proof. intros. unfold scrollrect. ktr_auto. Qed.
+#[export] Hint Resolve ktr_scrollrect : ktr.
 Lemma ktr_count_up : forall fuel w, ktr (count_up fuel w).
 Proof. ktr_fix fuel. Qed.
 #[export] Hint Resolve ktr_is_child ktr_window_ref ktr_count_up : ktr.
